@@ -11,6 +11,7 @@ same early returns and `break`s, a run-time panic exactly where the model has on
 interpreter never meets a construct it has no meaning for.
 -/
 import VaxisModel.Lemmas.InputBodyArms3
+import VaxisModel.Props.C03
 
 namespace VaxisModel.Props.C03Body
 open VaxisModel.Model.GoBody VaxisModel.Model.Input VaxisModel.Model.InputBody VaxisModel.Model.InputLoop
@@ -122,6 +123,51 @@ theorem lts_input_is_body (p : Params) (s : Sys) (q : Seq) (h : s.pend = []) :
   cases hh : handle p.b64 s.vs q with
   | error e => cases e; simp [ofModel]
   | ok r => obtain ⟨v, l⟩ := r; simp [ofModel, List.map_map, Function.comp_def]
+
+
+/-! ## The end-to-end event theorem over the interpreted source -/
+
+/-- The sequences of a stream handled one after the other BY THE REGENERATED BODY: the final state
+and everything posted, in order. -/
+def pipelineBody (b64 : List Nat → Option (List Nat)) : VState → List Seq → Except Fail (VState × List Event)
+  | st, [] => .ok (st, [])
+  | st, s :: ss =>
+    match runHs b64 st s with
+    | .error e => .error e
+    | .ok (st1, keffs) =>
+      match pipelineBody b64 st1 ss with
+      | .error e => .error e
+      | .ok (st2, evs) => .ok (st2, VaxisModel.Lemmas.InputEvents.posted (keffs.map (·.1)) ++ evs)
+
+theorem pipelineBody_eq (b64 : List Nat → Option (List Nat)) : ∀ (ss : List Seq) (st : VState),
+    pipelineBody b64 st ss =
+      match VaxisModel.Lemmas.InputEvents.pipeline b64 st ss with
+      | .ok r => .ok r
+      | .error _ => .error .panic
+  | [], st => rfl
+  | s :: ss, st => by
+    simp only [pipelineBody, VaxisModel.Lemmas.InputEvents.pipeline, handleSequence_body_eq_model]
+    cases hh : handle b64 st s with
+    | error e => simp [ofModel]
+    | ok r =>
+      obtain ⟨st1, effs⟩ := r
+      simp only [ofModel, pipelineBody_eq b64 ss st1, List.map_map, Function.comp_def, List.map_id']
+      cases VaxisModel.Lemmas.InputEvents.pipeline b64 st1 ss with
+      | error e => rfl
+      | ok r2 => rfl
+
+/-- **`events_exact` on the interpreted source.**  For every list of well-formed reports handled in
+order by the regenerated body of `handleSequence`, from any state with no cursor-position request
+outstanding: no panic, nothing the interpreter cannot execute, and the application-visible events
+posted are exactly those the grammar-level spec requires — one per report, in order, keys inside a
+paste marked as pasted, replies invisible. -/
+theorem events_exact_body (b64 : List Nat → Option (List Nat)) (rs : List VaxisModel.Lemmas.InputEvents.SReport) (st : VState)
+    (hw : ∀ r ∈ rs, r.Wf) (hreq : st.reqCursorPos = false) :
+    ∃ st' evs, pipelineBody b64 st (rs.map VaxisModel.Lemmas.InputEvents.SReport.seq) = .ok (st', evs) ∧
+      VaxisModel.Lemmas.InputEvents.visible evs =
+        VaxisModel.Spec.InputEvents.specEvents st.pastePending (rs.map VaxisModel.Lemmas.InputEvents.SReport.spec) := by
+  obtain ⟨st', evs, hp, hv⟩ := VaxisModel.Props.C03.events_exact b64 rs st hw hreq
+  exact ⟨st', evs, by rw [pipelineBody_eq, hp], hv⟩
 
 /-- Non-vacuity: a concrete run of the regenerated body — the answer to a cursor-position request
 is handed over with a non-blocking send and the flag is lowered. -/
